@@ -91,7 +91,7 @@ PROPS = {
              "answer is an integer tuple that extends to a solution; non-trivial = >1 solution or >=1 answer; distinct = distinct case lines; (2) programs with at most ONE propagator (whose state representation does not depend on the hash-iteration order) also raw with a STATE DUMP (`rst` case lines): substitution of every program variable, domain store and constraint store (kind + walk*ed operands, sorted) of every state the body goal delivers, real State vs model State",
         trusted=SEARCH_TRUST,
         assumptions=[],
-        open=["distinctfd on an OPEN-TAILED list (the tail variable is taken for an element) is outside the global exactness theorems (CstOK requires a proper list term)", "every domain-store key is unbound: PROVED (C16_domain_keys_unbound, Props/C16Keys.lean, strict mode, no CLP(Z) constraint on an FD variable); the normal form of stored disequalities in FD states and the assembly of labelling + reification into the reported answer are carried by the correspondence"],
+        open=["distinctfd on an OPEN-TAILED list (the tail variable is taken for an element) is outside the global exactness theorems (CstOK requires a proper list term)", "every domain-store key is unbound: PROVED (C16_domain_keys_unbound, Props/C16Keys.lean, strict mode, no CLP(Z) constraint on an FD variable); labelled states are closed and solutions: PROVED (C16_labelled_answer_sound); the normal form of stored disequalities in FD states, the engine-level `onceo` of enforce_constraints_fd and reification are carried by the correspondence"],
     ),
     "C17": dict(
         title="CLP(FD) labelling completeness and uniqueness",
@@ -101,7 +101,7 @@ PROPS = {
              "disjunction path it satisfies; non-trivial = >1 solution or >=1 answer; distinct = distinct case lines",
         trusted=SEARCH_TRUST,
         assumptions=[],
-        open=["distinctfd on an OPEN-TAILED list (the tail variable is taken for an element) is outside the global exactness theorems (CstOK requires a proper list term)", "every domain-store key is unbound: PROVED (C16_domain_keys_unbound, Props/C16Keys.lean, strict mode, no CLP(Z) constraint on an FD variable); the normal form of stored disequalities in FD states and the assembly of labelling + reification into the reported answer are carried by the correspondence"],
+        open=["distinctfd on an OPEN-TAILED list (the tail variable is taken for an element) is outside the global exactness theorems (CstOK requires a proper list term)", "every domain-store key is unbound: PROVED (C16_domain_keys_unbound, Props/C16Keys.lean, strict mode, no CLP(Z) constraint on an FD variable); labelled states are closed and solutions: PROVED (C16_labelled_answer_sound); the normal form of stored disequalities in FD states, the engine-level `onceo` of enforce_constraints_fd and reification are carried by the correspondence"],
     ),
     "C19": dict(
         title="CLP(Z) plusz/timesz",
